@@ -114,6 +114,7 @@ CONC = {
     "once": ["W", "O", "P", "X", "H", "F", "M", "D", "T", "A"],
     "limit": ["W", "P", "X", "F"],
     "oplimit": ["O"],
+    "oplimitf": ["O"],
     "lock": ["W", "O", "P", "X", "H", "F"],
     "oplaunch": ["O"], "opsignal": ["O"], "opstartgroup": ["O"], "opadd": ["O"],
     "wlaunch": ["W"], "wsignal": ["W"], "wbackground": ["W"], "pbackground": ["P"], "xbackground": ["X"],
@@ -438,10 +439,10 @@ def conc_predicate(t, obs):
     script = t[5][1:]
     if subject == "opadd":
         n = 1
-    m = re.match(r"^ph=((?:\(\d+,\d+\))*)\|res=([^|]*)\|inv=(\d+)\|maxc=(\d+)(\|stuck=\d+)?$", obs)
+    m = re.match(r"^ph=((?:\(\d+,\d+(?:,\d+)?\))*)\|res=([^|]*)\|inv=(\d+)\|maxc=(\d+)(\|stuck=\d+)?$", obs)
     if not m:
         return "malformed observation " + obs[:120]
-    phases = [(int(a), int(b)) for a, b in re.findall(r"\((\d+),(\d+)\)", m.group(1))]
+    phases = [(int(a), int(b)) for a, b in re.findall(r"\((\d+),(\d+)(?:,\d+)?\)", m.group(1))]
     res = m.group(2).split(",") if m.group(2) else []
     inv, maxc = int(m.group(3)), int(m.group(4))
     if m.group(5):
@@ -478,7 +479,9 @@ def conc_predicate(t, obs):
         if sorted(res) != want:
             return f"Limit({n}): callers observed {sorted(res)}, expected the executions' own results and then the last one: {want}"
         return None
-    if subject == "oplimit":
+    if subject in ("oplimit", "oplimitf"):
+        if maxc > n or any(inside > n for _, inside in phases):
+            return f"Operation.Limit({n}) had more than {n} executions in progress"
         if inv != min(n, g):
             return f"Operation.Limit({n}) ran the operation {inv} times for {g} calls"
         return None
@@ -531,10 +534,10 @@ def second_pass(line, obs):
     evaluates the model's `allowed` predicate on it"""
     if not line.startswith("(conc ") or not obs or not obs.startswith("ph="):
         return None
-    m = re.match(r"^ph=((?:\(\d+,\d+\))*)\|res=([^|]*)\|inv=(\d+)\|maxc=(\d+)", obs)
+    m = re.match(r"^ph=((?:\(\d+,\d+(?:,\d+)?\))*)\|res=([^|]*)\|inv=(\d+)\|maxc=(\d+)", obs)
     if not m:
         return None
-    ph = " ".join(f"({a} {b})" for a, b in re.findall(r"\((\d+),(\d+)\)", m.group(1)))
+    ph = " ".join(f"({a} {b})" for a, b in re.findall(r"\((\d+),(\d+)(?:,\d+)?\)", m.group(1)))
     res = " ".join(m.group(2).split(",")) if m.group(2) else ""
     return f"(allowed {line} (obs (ph {ph}) (res {res}) (inv {m.group(3)}) (maxc {m.group(4)})))"
 
